@@ -247,6 +247,17 @@ impl Prop for C14 {
         let both_nonempty = !a.is_empty() && !b.is_empty();
         if !both_nonempty && !ev.is_ok() { return Outcome::trivial().tag("empty-operand-rejected"); }
         let v = tri!(check(&ev, &format!("{} with a={} b={}", src, va.show(), vb.show())));
+        // the same operation called BY NAME (set/union(a, b), set/proper-superset(a, b), ...) is the same function
+        let mut named_tag: Option<String> = None;
+        {
+          let name = match op { "∪" => "set/union", "∩" => "set/intersection", "∖" => "set/difference", "Δ" => "set/symmetric-difference", "⊆" => "set/subset", "⊇" => "set/superset", "⊊" | "⊂" => "set/proper_subset", _ => "set/proper-superset" };
+          let nsrc = format!("{}({}, {})", name, if forms[0] == b'v' { "a".to_string() } else { lit(k, &a) }, if forms[1] == b'v' { "b".to_string() } else { lit(k, &b) });
+          match s.eval(&nsrc) {
+            Ev::Ok(nv) => { let same = if BINOPS.contains(&op) { to_ids(&nv, &m).ok() == to_ids(&v, &m).ok() } else { nv == v }; if !same { return Outcome::violated("named-form-differs", format!("{} gave {} but {} gave {} (a={} b={})", nsrc, nv.show(), src, v.show(), va.show(), vb.show())); } named_tag = Some(format!("named:{}", name)); }
+            Ev::Panic(p) => return Outcome::violated("panic-escaped", format!("{}: {}", nsrc, p)),
+            _ => { named_tag = Some(format!("named-form-rejected:{}", name)); }
+          }
+        }
         if BINOPS.contains(&op) {
           let want = apply(op, &ia, &ib);
           if tri!(to_ids(&v, &m)) != want { return Outcome::violated("set-algebra-wrong", format!("{} with a={} b={} gave {}", src, va.show(), vb.show(), v.show())); }
@@ -259,7 +270,8 @@ impl Prop for C14 {
           let want = match op { "⊆" => ia.is_subset(&ib), "⊇" => ia.is_superset(&ib), "⊊" | "⊂" => ia.is_subset(&ib) && ia != ib, _ => ia.is_superset(&ib) && ia != ib };
           match v { CVal::S(_, Sc::B(g)) => if g != want { return Outcome::violated("set-relation-wrong", format!("{} with a={} b={} gave {} expected {}", src, va.show(), vb.show(), g, want)); }, o => return Outcome::violated("not-a-bool", format!("{} gave {}", src, o.show())) }
         }
-        if both_nonempty { Outcome::held() } else { Outcome::trivial() }
+        let o = if both_nonempty { Outcome::held() } else { Outcome::trivial() };
+        if let Some(t) = named_tag { o.tag(t) } else { o }
       }
       "convert" => {
         let k = case.input["kind"].as_str().unwrap();
